@@ -14,7 +14,7 @@ from sa.exc import CANCELLED
 from sa.flow import Interp, WithEnter, call_of
 
 CLAIM = {
-    "text": "Decides the containment structure: the per-client initializer context managers of the TCP and UDP servers swallow every Exception-class token thrown at their yield (summary computed from their own bodies: except*/except Exception without re-raise for TCP, for UDP every path of __aexit__ with the argument bound to an Exception or a group of Exceptions ends in `return True`, isinstance/match/`is None` tests decided from that abstract kind); in the request-handler driving generators every call, await and yield other than the initializer itself lies inside that context, so no Exception raised by any user hook (on_connection, handle before/after any yield or while handling a thrown error, on_disconnection) or thrown in by the server can leave the per-client task; the disconnection hook is registered before the request loop on a stack inside the catch-all; per-connection set-up tasks (accepted-socket task, TLS handshake wrapper) close the socket and re-raise only non-Exception BaseExceptions; the handshake error handler is total and never raises; accept errors with ignorable/capacity errnos do not leave the accept loop. Also decided: no input-dependent exception class can leave the two request receivers or the stream server's per-client task (escape analysis with generator objects followed through receivers and attributes); every exit of the UDP per-client task has taken at least one datagram off the client's queue; socket-level shutdown calls in close paths are protected by an arm that catches every OSError. In except arms of the server / listener modules an attribute of the caught exception is read only where every caught class has it or after an isinstance() narrowing that is evaluated first; the functions on the exit path of the UDP per-client catch-all contain no destructuring of a run-time value; keyword arguments configuring the per-connection timeouts are not crossed over. Round 4: every builder of the actions sent to / thrown into a handler generator (found by what it returns) is total - nothing input-dependent and no explicit raise other than StopAsyncIteration leaves it. Round 5: the errno tables consulted by the accept loop hold errno numbers (the walrus binds the looked-up value, not a comparison); keyword arguments are neither crossed nor duplicated; the UDP per-client state machine rules of C16.single run here as well. Round 6: no serializer class keeps a stream reader / byte buffer / queue instance on self and no incremental (generator) method stores to self; the listener's error callback cannot raise one peer's socket error in another client's send.",
+    "text": "Decides the containment structure: the per-client initializer context managers of the TCP and UDP servers swallow every Exception-class token thrown at their yield (summary computed from their own bodies: except*/except Exception without re-raise for TCP, for UDP every path of __aexit__ with the argument bound to an Exception or a group of Exceptions ends in `return True`, isinstance/match/`is None` tests decided from that abstract kind); in the request-handler driving generators every call, await and yield other than the initializer itself lies inside that context, so no Exception raised by any user hook (on_connection, handle before/after any yield or while handling a thrown error, on_disconnection) or thrown in by the server can leave the per-client task; the disconnection hook is registered before the request loop on a stack inside the catch-all; per-connection set-up tasks (accepted-socket task, TLS handshake wrapper) close the socket and re-raise only non-Exception BaseExceptions; the handshake error handler is total and never raises; accept errors with ignorable/capacity errnos do not leave the accept loop. Also decided: no input-dependent exception class can leave the two request receivers or the stream server's per-client task (escape analysis with generator objects followed through receivers and attributes); every exit of the UDP per-client task has taken at least one datagram off the client's queue; socket-level shutdown calls in close paths are protected by an arm that catches every OSError. In except arms of the server / listener modules an attribute of the caught exception is read only where every caught class has it or after an isinstance() narrowing that is evaluated first; the functions on the exit path of the UDP per-client catch-all contain no destructuring of a run-time value; keyword arguments configuring the per-connection timeouts are not crossed over. Round 4: every builder of the actions sent to / thrown into a handler generator (found by what it returns) is total - nothing input-dependent and no explicit raise other than StopAsyncIteration leaves it. Round 5: the errno tables consulted by the accept loop hold errno numbers (the walrus binds the looked-up value, not a comparison); keyword arguments are neither crossed nor duplicated; the UDP per-client state machine rules of C16.single run here as well. Round 6: no serializer class keeps a stream reader / byte buffer / queue instance on self and no incremental (generator) method stores to self; the listener's error callback cannot raise one peer's socket error in another client's send. Round 7: the close path of the TLS transport (C14 typestate) runs here too: a peer that never answers close_notify does not keep the failing client's connection open.",
     "note": "Trusted: task-group semantics; calls made *inside* except/finally arms of the set-up tasks (logging, forceful close) and the pre-yield part of the initializers do not raise (listed in the evidence as residual assumptions). Not decided: liveness (that healthy clients are answered); behaviour for non-Exception BaseExceptions (by design they stop the server).",
     "technique": "exception-containment analysis by abstract interpretation over an exception-aware structured CFG with computed context-manager swallow summaries and an exception-class lattice; isinstance() tests on the caught exception are decided from the handler's token",
 }
